@@ -410,3 +410,17 @@ Proof.
   intros x y r s H. pose proof (take_put_field x r) as Hx. rewrite H, take_put_field in Hx.
   inversion Hx. split; reflexivity.
 Qed.
+
+(* the multiformats decoder inverts the encoder below 2^63 (no hypothesis on the rest) *)
+Theorem decode_mf_encode : forall n r, n < 2 ^ 63 -> decode_mf (encode n ++ r) = Some (n, r).
+Proof.
+  intros n r Hn. unfold decode_mf, decode_min.
+  rewrite decode_min_aux_encode by (left; reflexivity). rewrite consumed_app.
+  assert (L : (length (encode n) <= 9)%nat).
+  { apply encode_length_le; [lia|]. eapply N.lt_le_trans; [exact Hn|]. vm_compute. discriminate. }
+  assert (E : (N.of_nat (length (encode n)) <=? 9) = true) by (apply N.leb_le; lia).
+  rewrite E. reflexivity.
+Qed.
+
+Lemma put_field_bytes_ok : forall x, bytes_ok x -> bytes_ok (put_field x).
+Proof. intros x H. unfold put_field. apply Forall_app. split; [apply encode_bytes_ok|exact H]. Qed.
